@@ -228,7 +228,7 @@ func TestCheck(t *testing.T) {
 	run.Rule("queries generated over a zoo schema (keyed/unkeyed objects, value and pointer lists with nil entries, union, enum, args by literal/variable/default) with duplicate aliases, inline and named fragments (re-used), unions; " +
 		"each query is executed under several per-field mode configurations (plain/Expensive/batch/batch+fallback both flags/NumParallelInvocations k) x work schedulers (thunder's + FIFO/LIFO/random/pool/yield), inside a Rerunner twice, through graphql.HTTPHandlerWithExecutor, and as one prepared query shared by 3 concurrent requests over different data; " +
 		"every result is compared with an independent sequential reference evaluator. Non-trivial = query shows >= 2 of {duplicate alias, fragment, union, list, arguments, depth >= 3}; distinct by AST shape.")
-	run.Assume("reference evaluator gen.Eval and generator gen.Generate are correct; only queries thunder's validation accepts; 1 case in 8 carries @skip/@include (C19 studies those by themselves); 1 in 4 spreads one fragment, typed on Node or Leaf and selecting only fields both have, inside objects of both types: thunder validates such a fragment against the object it sits in and applies it, GraphQL proper would not apply it - either outcome is accepted, nothing else")
+	run.Assume("reference evaluator gen.Eval and generator gen.Generate are correct; only queries thunder's validation accepts; 1 case in 4 carries @skip/@include (C19 studies those by themselves); 1 in 4 spreads one fragment, typed on Node or Leaf and selecting only fields both have, inside objects of both types: thunder validates such a fragment against the object it sits in and applies it, GraphQL proper would not apply it - either outcome is accepted, nothing else")
 	nCfg := run.N(5, 10)
 	configs := buildConfigs(run, sd, nCfg)
 	if len(configs) == 0 {
@@ -253,10 +253,10 @@ func TestCheck(t *testing.T) {
 		case 0, 1:
 			// one named fragment shared by objects of two types
 			o.PForeign = 0.2
-		case 2:
+		case 2, 3:
 			// @skip/@include as part of ordinary queries (C19 studies them by
 			// themselves); a selection set may lose all its selections
-			o.PDir = 0.15
+			o.PDir = 0.15 + 0.2*r.Float64()
 		}
 		doc := gen.Generate(r, sd, w, o)
 		text, vars := doc.Text(), doc.VarsJSON()
